@@ -127,6 +127,17 @@ def gen(ctx):
                 'initdef': pick(),
                 'expired': pick(),
                 'stored': rng.randrange(len(DOMAIN)) if rng.random() < 0.4 else None}
+        bad = [i for i, v in enumerate(DOMAIN) if not probe.ref(v)[0]]
+        r = rng.random()
+        if r < 0.06:
+            # the delivery of the block's own output event fails with a ValueError during put #k
+            case['listener_fault'] = rng.randrange(len(case['puts']))
+        elif r < 0.2 and case['kind'] == 'Input' and good:
+            # persistent, nothing stored, no initdef: the block gets its first value from events
+            # sent by another block during the initialisation; rejected puts come first
+            case['uninit'] = [rng.choice(bad) for _ in range(rng.randrange(0, 3)) if bad] \
+                + [rng.choice(good)]
+            case['stored'] = None
         yield case
 
 
@@ -171,18 +182,42 @@ def run_batch(batch, ctx):
     done = [False] * len(batch)
     state = {'aborted': None}
 
+    class Feeder(edzed.SBlock):
+        """Initialises another block by events while the circuit is being initialised."""
+        def init_regular(self):
+            for value in self.x_values:
+                try:
+                    self.x_results.append(self.x_dest.event('put', value=value, source=self.name))
+                except Exception as err:    # pylint: disable=broad-except
+                    self.x_results.append(err)
+            self.set_output(len(self.x_values))
+
     def build():
         blocks = []
+        edzed.Input('sink', initdef=None)
         for i, case in enumerate(batch):
             log = []
             val = Validators(case, log)
+            val.feed_results = []
             vals.append(val)
             kw = val.kwargs(case['aslist'])
             persistent = case['stored'] is not None and case['kind'] == 'Input'
             if persistent:
                 dict.__setitem__(storage, f"<Input 'b{i}'>", DOMAIN[case['stored']])
+            if case.get('listener_fault') is not None:
+                def listener(data, val=val):
+                    if val.fault_now:
+                        val.fault_fired = True
+                        raise ValueError("vf: the listener cannot handle this value")
+                    return True
+                val.fault_now = val.fault_fired = False
+                kw['on_every_output'] = edzed.Event('sink', 'put', efilter=listener)
             try:
-                if case['kind'] == 'Input':
+                if case.get('uninit'):
+                    blk = edzed.Input(f"b{i}", persistent=True, **kw)
+                    Feeder(f"feed{i}", x_dest=blk, x_values=[DOMAIN[j] for j in case['uninit']],
+                           x_results=val.feed_results)
+                elif case['kind'] == 'Input':
                     blk = edzed.Input(f"b{i}", initdef=DOMAIN[case['initdef']],
                                       persistent=persistent, **kw)
                 else:
@@ -256,6 +291,22 @@ def check_one(case, blk, val, sim, ctx):
     kind = case['kind']
     # initial value
     _, cur = val.ref(DOMAIN[case['initdef']])
+    if case.get('uninit'):
+        ctx.count('initialised_by_events')
+        for j, res in zip(case['uninit'], val.feed_results):
+            ok, out = val.ref(DOMAIN[j])
+            if not ok:
+                ctx.count('rejected_put_into_uninitialised_block')
+            if res is not ok:
+                raise core.Violation(
+                    f"{'accepted' if ok else 'rejected'}-put-returned-{res!r}"[:60]
+                    if isinstance(res, bool) else 'put-into-uninitialised-block-raised',
+                    f"Input (persistent, still uninitialised): put({DOMAIN[j]!r}) during the "
+                    f"initialisation gave {res!r}, expected {ok!r}")
+            if ok:
+                cur = out
+        if len(val.feed_results) != len(case['uninit']):
+            raise core.Inconclusive("C17: the feeder block did not run")
     if case['stored'] is not None and kind == 'Input':
         ctx.count('restores_checked')
         ok, out = val.ref(DOMAIN[case['stored']])
@@ -275,9 +326,15 @@ def check_one(case, blk, val, sim, ctx):
         unhashable = isinstance(value, list)
         if unhashable:
             ctx.count('unhashable_puts')
+        if case.get('listener_fault') == k:
+            val.fault_now = True
         try:
             ret = edzed.ExtEvent(blk, 'put').send(value)
         except Exception as err:
+            if getattr(val, 'fault_fired', False):
+                # the fault of the listener is reported (and fatal), not mistaken for a rejection
+                ctx.count('listener_faults_reported')
+                return
             tag = 'unhashable-with-allowed' if unhashable and val.allowed is not None else 'other'
             if not sim.alive():
                 raise core.Violation(
@@ -286,6 +343,8 @@ def check_one(case, blk, val, sim, ctx):
                     f"(expected {'acceptance' if ok else 'a False return'})")
             raise core.Violation(
                 f'put-raised-{tag}', f"{kind}: put({value!r}) raised {err!r}")
+        finally:
+            val.fault_now = False
         ctx.count('puts_compared')
         if any(e[0] == 'schema' for e in val.log) and val.schema_tab[idx][0] == 'raise':
             ctx.count('schema_raised')
